@@ -1,15 +1,24 @@
+import Generated.C13
 /-!
-# Model of `dns/xfr.py` (`Inbound`, `make_query`, `extract_serial_from_query`), import-free.
+# Model of `dns/xfr.py` (`Inbound`, `make_query`, `extract_serial_from_query`) and of the loop glue of
+`dns.query.inbound_xfr`.  Imports only the constants regenerated from the working tree.
 
 The zone is this file's own minimal abstraction: the *graph* of a finite map
-`(owner, rdtype) ↦ set of rdata`, i.e. a list of records read as a set (membership is the only
-observable; duplicates and order carry no meaning, the driver prints sorted and de-duplicated).  The
-zone's serial is the serial of its apex SOA record.  A transaction is a working copy plus the
-`changed` flag that decides whether `commit` installs it (`dns/zone.py:1201`).
+`(owner, rdtype) ↦ (ttl, set of rdata)`, i.e. a list of records `(owner, rdtype, rdata, ttl)` read as a
+set (membership is the only observable; duplicates and order carry no meaning, the driver prints sorted
+and de-duplicated).  Real zones keep one TTL per rdataset and never hold a CNAME next to other data; the
+operations below preserve that (`put` re-stores a whole rdataset under one TTL and applies the exclusion of
+`dns.node.Node._append_rdataset`).  The zone's serial is the serial of its apex SOA record.  A transaction is
+a working copy plus the `changed` flag that decides whether `commit` installs it (`dns/zone.py`).
 
 Names arrive canonicalised (ASCII lower case) from the driver, so the library's case-insensitive name
-equality is structural equality here.  TTL and class are outside the model.  `rdtype` stands for the
-pair (rdtype, covers) (`rdtype + 65536 * covers` on the protocol).
+equality is structural equality here.  Class is outside the model.  `rdtype` stands for the pair
+(rdtype, covers): `rdtype + 65536 * covers`.
+
+The parameter `fix` of the transfer functions: `true` is the code as it is (surplus rrsets after the final
+SOA are refused before committing, commit 3feda1c); `false` is the loop without that look-ahead, kept as an
+auxiliary relaxation (it distributes over list append, which the proofs use) and as the record of what the
+repair changed.
 -/
 namespace Model.Xfr
 
@@ -28,6 +37,7 @@ structure Rdata where
 structure RRset where
   owner : Name
   rdtype : Nat
+  ttl : Nat
   rdatas : List Rdata
   deriving DecidableEq, Repr
 
@@ -35,17 +45,18 @@ structure RR where
   owner : Name
   rdtype : Nat
   rdata : Rdata
+  ttl : Nat
   deriving DecidableEq, Repr
 
 abbrev Zone := List RR
 
 /-- the records of an rrset -/
-def recsOf (rs : RRset) : List RR := rs.rdatas.map fun d => ⟨rs.owner, rs.rdtype, d⟩
+def recsOf (rs : RRset) : List RR := rs.rdatas.map fun d => ⟨rs.owner, rs.rdtype, d, rs.ttl⟩
 
 def recsOfAll (l : List RRset) : List RR := l.flatMap recsOf
 
 /-- one-record rrset, as `one_rr_per_rrset=True` produces -/
-def single (r : RR) : RRset := ⟨r.owner, r.rdtype, [r.rdata]⟩
+def single (r : RR) : RRset := ⟨r.owner, r.rdtype, r.ttl, [r.rdata]⟩
 
 /-- Zones are compared as sets of records. -/
 def Zone.equiv (a b : Zone) : Prop := ∀ r, r ∈ a ↔ r ∈ b
@@ -100,6 +111,51 @@ def XErr.toString : XErr → String
   | .EOF => "EOFError"
   | .Internal => "Internal"
 
+/-! ## nodes (`dns/node.py`, `dns/rdataset.py`) -/
+
+inductive Kind where
+  | regular | neutral | cname
+  deriving DecidableEq, Repr
+
+/-- `NodeKind.classify(rdtype, covers)` -/
+def kindOf (t : Nat) : Kind :=
+  if (t % 65536) ∈ ConstsC13.cnameTypes ∨ (t % 65536 = ConstsC13.rrsig ∧ (t / 65536) ∈ ConstsC13.cnameTypes) then .cname
+  else if (t % 65536) ∈ ConstsC13.neutralTypes ∨ (t % 65536 = ConstsC13.rrsig ∧ (t / 65536) ∈ ConstsC13.neutralTypes) then
+    .neutral
+  else .regular
+
+/-- `dns.rdatatype.is_singleton` -/
+def isSingleton (t : Nat) : Bool := decide ((t % 65536) ∈ ConstsC13.singletons)
+
+/-- `Node._append_rdataset`: does storing an rdataset of type `t` at a node drive the record `r` of that
+node out?  (a CNAME drives out other data, other data drives out a CNAME; neutral types coexist) -/
+def drivesOut (t : Nat) (r : RR) : Bool :=
+  (kindOf t == .cname && kindOf r.rdtype == .regular) || (kindOf t == .regular && kindOf r.rdtype == .cname)
+
+/-- `WritableVersion.put_rdataset` = `Node.replace_rdataset`: the rdataset of that type is dropped, the
+exclusion is applied, the new rdataset is appended -/
+def put (w : Zone) (o : Name) (t ttl : Nat) (ds : List Rdata) : Zone :=
+  (w.filter fun r => !(r.owner == o && (r.rdtype == t || drivesOut t r))) ++ ds.map fun d => ⟨o, t, d, ttl⟩
+
+/-- the records of the rdataset `(o, t)` -/
+def existing (w : Zone) (o : Name) (t : Nat) : List RR := w.filter fun r => r.owner == o && r.rdtype == t
+
+/-- `existing.union(rdataset)`: every `add` to a singleton type clears the set first -/
+def unionData (single : Bool) (old new : List Rdata) : List Rdata :=
+  if single then (match new.getLast? with | some d => [d] | none => old) else old ++ new
+
+/-- TTL minimisation of `Rdataset.update_ttl` -/
+def unionTtl (old : List RR) (ttl : Nat) : Nat :=
+  match old with
+  | [] => ttl
+  | e :: _ => min e.ttl ttl
+
+/-- the TTL of an rdataset (of its records; they share it) -/
+def ttlOf (old : List RR) : Nat :=
+  match old with
+  | [] => 0
+  | e :: _ => e.ttl
+
 /-! ## transactions (`dns/transaction.py` `_add` / `_delete`, `dns/zone.py` `WritableVersion`) -/
 
 structure Txn where
@@ -111,26 +167,37 @@ structure Txn where
 def writer (zone : Zone) (replacement : Bool) : Txn :=
   { work := if replacement then [] else zone, changed := false }
 
-/-- `txn.add(name, rdataset)`: non-origin SOA is refused, otherwise the union is stored -/
+/-- `txn.add(name, rdataset)`: non-origin SOA is refused, otherwise the union with the existing rdataset
+is stored -/
 def txnAdd (origin : Name) (x : Txn) (rs : RRset) : Except XErr Txn :=
   if rs.rdtype = soaType ∧ rs.owner ≠ origin then .error .ValueError
-  else .ok { work := x.work ++ recsOf rs, changed := true }
+  else .ok { work := put x.work rs.owner rs.rdtype (unionTtl (existing x.work rs.owner rs.rdtype) rs.ttl)
+                       (unionData (isSingleton rs.rdtype) ((existing x.work rs.owner rs.rdtype).map (·.rdata)) rs.rdatas),
+             changed := true }
 
 /-- `txn.replace(name, rdataset)` -/
 def txnReplace (origin : Name) (x : Txn) (rs : RRset) : Except XErr Txn :=
   if rs.rdtype = soaType ∧ rs.owner ≠ origin then .error .ValueError
-  else .ok { work := (x.work.filter fun r => ¬ (r.owner = rs.owner ∧ r.rdtype = rs.rdtype)) ++ recsOf rs,
-             changed := true }
+  else .ok { work := put x.work rs.owner rs.rdtype rs.ttl rs.rdatas, changed := true }
 
-/-- `txn.delete_exact(name, rdataset)` -/
+/-- what is left of the rdataset `(o, t)` after removing `ds` -/
+def remaining (w : Zone) (o : Name) (t : Nat) (ds : List Rdata) : List Rdata :=
+  ((existing w o t).map (·.rdata)).filter fun d => !ds.contains d
+
+/-- `txn.delete_exact(name, rdataset)` (TTLs are not compared) -/
 def txnDeleteExact (x : Txn) (rs : RRset) : Except XErr Txn :=
   if rs.rdatas = [] then
     -- an empty rdataset is falsy: the whole name is deleted, and must exist
     if x.work.any (fun r => r.owner == rs.owner) then
-      .ok { work := x.work.filter fun r => ¬ (r.owner = rs.owner), changed := true }
+      .ok { work := x.work.filter fun r => !(r.owner == rs.owner), changed := true }
     else .error .DeleteNotExact
-  else if (recsOf rs).all (fun r => x.work.contains r) then
-    .ok { work := x.work.filter fun r => ¬ (r ∈ recsOf rs), changed := true }
+  else if rs.rdatas.all (fun d => ((existing x.work rs.owner rs.rdtype).map (·.rdata)).contains d) then
+    if (remaining x.work rs.owner rs.rdtype rs.rdatas).isEmpty then
+      .ok { work := x.work.filter fun r => !(r.owner == rs.owner && r.rdtype == rs.rdtype), changed := true }
+    else
+      .ok { work := put x.work rs.owner rs.rdtype (ttlOf (existing x.work rs.owner rs.rdtype))
+                      (remaining x.work rs.owner rs.rdtype rs.rdatas),
+            changed := true }
   else .error .DeleteNotExact
 
 /-! ## `Inbound` -/
@@ -373,5 +440,37 @@ def extractSerial (qtype : Nat) (auth : Option Nat) : Except XErr (Option Nat) :
   else match auth with
     | some s => .ok (some s)
     | none => .error .KeyError     -- `find_rrset` raises KeyError
+
+/-! ## `dns.query.inbound_xfr`: which query, and UDP first with a TCP retry -/
+
+inductive UdpMode where
+  | never | tryFirst | only
+  deriving DecidableEq, Repr
+
+/-- the (rdtype, serial) the transfer runs with: `make_query(txn_manager)` when no query is supplied,
+otherwise the question type of the supplied query and `extract_serial_from_query` of it
+(`query = some (question rdtype, serial of the SOA in its authority section)`) -/
+def queryOf (origin : Option Name) (z0 : Zone) (query : Option (Nat × Option Nat)) : Except XErr (Nat × Option Nat) :=
+  match query with
+  | none => makeQuery origin z0 (some 0)
+  | some (qt, auth) =>
+    match extractSerial qt auth with
+    | .error e => .error e
+    | .ok s => .ok (qt, s)
+
+/-- `dns.query.inbound_xfr` with the sockets abstracted: `udp` are the datagrams the server answers the
+query with over UDP, `tcp` the messages it sends over TCP.  An IXFR with `udp_mode != NEVER` is tried over
+UDP; `UseTCP` (and only it) leads to the TCP attempt — same query, same serial — unless the mode is `ONLY`. -/
+def inboundXfr (fix : Bool) (origin : Option Name) (query : Option (Nat × Option Nat)) (mode : UdpMode) (z0 : Zone)
+    (udp tcp : List Msg) : Outcome :=
+  match queryOf origin z0 query with
+  | .error e => ⟨some e, z0⟩
+  | .ok (rdtype, serial) =>
+    if rdtype = ixfrType ∧ mode ≠ .never then
+      match run fix ⟨origin, rdtype, serial, true⟩ z0 udp with
+      | ⟨some .UseTCP, z⟩ =>
+        if mode = .only then ⟨some .UseTCP, z⟩ else run fix ⟨origin, rdtype, serial, false⟩ z tcp
+      | out => out
+    else run fix ⟨origin, rdtype, serial, false⟩ z0 tcp
 
 end Model.Xfr
